@@ -39,10 +39,7 @@ Proof.
   - intros u. rewrite HT. destruct (Nat.eqb_spec u t) as [->|Hne]; cbn [excl x']; intros He; exfalso;
       exact (borrower_no_excl s t p _ I El He).
   - discriminate.
-  - intros u q m. rewrite HT. destruct (Nat.eqb_spec u t) as [->|Hne]; cbn [refs clk x'].
-    + intros Hr' Hq Hn Hall. apply (J7 s I t q m Hr' Hq Hn).
-      intros m' Hin Hhb. apply (Hall m' Hin). eapply hb_mono; [apply cle_tick | exact Hhb].
-    + apply (J7 s I u q m).
+  - apply J7_upd; auto.
   - intros u. rewrite HT. destruct (Nat.eqb_spec u t) as [->|Hne]; cbn [started x']; [discriminate|]. apply (J8 s I u).
   - intros _ H0. exfalso. rewrite Htot in H0. pose proof (total_ge (ths s) p). unfold T, getth in Hrp. lia.
   - apply J10_upd; auto. intros (c & Hc). destruct (J10 s I c t Hc) as (_ & _ & Hr' & _ & He' & _). auto.
@@ -100,11 +97,23 @@ Proof.
     intros He. destruct (J5 s I u He) as (Hl' & H1 & Ht1 & HWc & HRc).
     exfalso. pose proof (T2_le_total s u t Hn2). lia.
   - intros Hl. congruence.
-  - intros u q m0. rewrite HT. destruct (Nat.eqb_spec u c) as [->|Hn1]; cbn [refs clk xc]; [lia|].
-    destruct (Nat.eqb_spec u t) as [->|Hn2]; cbn [refs clk xp].
-    + intros Hr' Hq Hn0 Hall1. apply (J7 s I t q m0 Hr Hq Hn0).
-      intros m' Hin Hhb. apply (Hall1 m' Hin). eapply hb_mono; [exact Hcc | exact Hhb].
-    + apply (J7 s I u q m0).
+  - intros u q m0.
+    pose (s2 := {| msgs := msgs s; Wc := Wc s; Rc := Rc s; live := live s; ths := upd (upd (ths s) t xp) c xc |}).
+    assert (Hclk : forall v, v <> c -> cle (clk (T s v)) (clk (T s2 v))).
+    { intros v Hvc. unfold s2. rewrite HT. destruct (Nat.eqb_spec v c) as [->|]; [contradiction|].
+      destruct (Nat.eqb_spec v t) as [->|]; [exact Hcc|apply cle_refl]. }
+    assert (Hbc : forall v w, lend (T s w) = S v -> w <> c).
+    { intros v w Hw ->. destruct (J10 s I c v Hw) as (Hx & _). congruence. }
+    assert (Hlend : forall v, v <> c -> lend (T s2 v) = lend (T s v)).
+    { intros v Hvc. unfold s2. rewrite HT. destruct (Nat.eqb_spec v c) as [->|]; [contradiction|].
+      destruct (Nat.eqb_spec v t) as [->|]; [cbn [lend xp]; congruence|reflexivity]. }
+    rewrite HT. destruct (Nat.eqb_spec u c) as [->|Hn1]; cbn [refs clk xc]; [lia|].
+    intros Hr' Hq Hn0 Hall1.
+    assert (Hru : refs (T s u) > 0) by (destruct (Nat.eqb_spec u t) as [->|]; cbn [refs xp] in Hr'; [exact Hr|exact Hr']).
+    assert (Hgoal : refs (T s u) + 1 <= val m0).
+    { apply (J7 s I u q m0 Hru Hq Hn0). apply (unseen_mono s s2 u q); [reflexivity|apply Hclk; exact Hn1| |exact Hall1].
+      intros w Hw. split; [rewrite Hlend; [exact Hw|exact (Hbc u w Hw)]|apply Hclk; exact (Hbc u w Hw)]. }
+    destruct (Nat.eqb_spec u t) as [->|]; cbn [refs xp]; exact Hgoal.
   - intros u. rewrite HT. destruct (Nat.eqb_spec u c) as [->|Hn1]; cbn [started xc]; [discriminate|].
     destruct (Nat.eqb_spec u t) as [->|Hn2]; cbn [started xp]; [discriminate|]. apply (J8 s I u).
   - intros _ H0. exfalso. rewrite Htot in H0. pose proof (T_le_total s t). lia.
@@ -173,11 +182,27 @@ Proof.
     destruct (Nat.eqb_spec u t) as [->|Hn2]; cbn [excl xp]; [congruence|].
     intros He. exfalso. exact (borrower_no_excl s c t u I Elc He).
   - intros Hl. exfalso. rewrite (borrower_live s c t I Elc) in Hl. discriminate.
-  - intros u q m0. rewrite HT. destruct (Nat.eqb_spec u c) as [->|Hn1]; cbn [refs clk xc]; [lia|].
-    destruct (Nat.eqb_spec u t) as [->|Hn2]; cbn [refs clk xp].
-    + intros Hr' Hq Hn0 Hall1. apply (J7 s I t q m0 Hr Hq Hn0).
-      intros m' Hin Hhb. apply (Hall1 m' Hin). eapply hb_mono; [exact Hcc | exact Hhb].
-    + apply (J7 s I u q m0).
+  - intros u q m0.
+    pose (s2 := {| msgs := msgs s; Wc := Wc s; Rc := Rc s; live := live s; ths := upd (upd (ths s) t xp) c xc |}).
+    rewrite HT. destruct (Nat.eqb_spec u c) as [->|Hn1]; cbn [refs clk xc]; [lia|].
+    intros Hr' Hq Hn0 Hall1.
+    assert (Hru : refs (T s u) > 0) by (destruct (Nat.eqb_spec u t) as [->|]; cbn [refs xp] in Hr'; [exact Hr|exact Hr']).
+    assert (Hgoal : refs (T s u) + 1 <= val m0).
+    { apply (J7 s I u q m0 Hru Hq Hn0). intros m' Hin. destruct (Hall1 m' Hin) as (H1 & H2).
+      assert (HTu : clk (T s2 u) = if Nat.eqb u t then cp else clk (T s u)).
+      { unfold s2. rewrite HT. destruct (Nat.eqb_spec u c); [contradiction|]. destruct (Nat.eqb_spec u t); reflexivity. }
+      split.
+      - intros Hhb. apply H1. fold s2. rewrite HTu. destruct (Nat.eqb_spec u t) as [->|]; [eapply hb_mono; [exact Hcc|exact Hhb]|exact Hhb].
+      - intros w Hw Hhb. destruct (Nat.eq_dec w c) as [->|Hwc].
+        + (* the borrower being joined: the lender's new clock covers it *)
+          assert (u = t) as -> by congruence.
+          apply H1. fold s2. rewrite HTu, Nat.eqb_refl. eapply hb_mono; [exact Hccc|exact Hhb].
+        + apply (H2 w).
+          * fold s2. unfold s2. rewrite HT. destruct (Nat.eqb_spec w c); [contradiction|].
+            destruct (Nat.eqb_spec w t) as [->|]; [cbn [lend xp]; exact Hw|exact Hw].
+          * fold s2. unfold s2. rewrite HT. destruct (Nat.eqb_spec w c); [contradiction|].
+            destruct (Nat.eqb_spec w t) as [->|]; [cbn [clk xp]; eapply hb_mono; [exact Hcc|exact Hhb]|exact Hhb]. }
+    destruct (Nat.eqb_spec u t) as [->|]; cbn [refs xp]; exact Hgoal.
   - intros u. rewrite HT. destruct (Nat.eqb_spec u c) as [->|Hn1]; cbn [started xc]; [congruence|].
     destruct (Nat.eqb_spec u t) as [->|Hn2]; cbn [started xp]; [discriminate|]. apply (J8 s I u).
   - intros _ H0. exfalso. rewrite Htot in H0. pose proof (T_le_total s t). lia.
@@ -188,4 +213,60 @@ Proof.
     + intros El. destruct (J10 s I c0 p0 El) as (Hs0 & Hp0 & Hr0 & Hl0 & He0 & HW0).
       destruct (Nat.eqb_spec p0 c) as [->|Hp0c]; [exfalso; lia|].
       destruct (Nat.eqb_spec p0 t) as [->|Hp0t]; cbn [refs lend excl xp]; repeat split; auto.
+Qed.
+
+(* ---------- ACloneB: clone through a borrowed handle ---------- *)
+Lemma pres_cloneb s t s' : Inv s -> step s t ACloneB = Ok s' -> Inv s'.
+Proof.
+  intros I H. inv_step H. fold (T s t) in H.
+  destruct (started (T s t)) eqn:Hst; cbn [negb] in H; [|discriminate].
+  destruct (Nat.eqb_spec (lend (T s t)) 0) as [|Hl0]; [discriminate|].
+  destruct (lend (T s t)) as [|p] eqn:El; [contradiction|].
+  destruct (live s) eqn:Hl; cbn [negb] in H; [|discriminate].
+  injection H as <-.
+  destruct (J10 s I t p El) as (_ & Hpt & Hrp & Hlp & Hep & HWt).
+  destruct (J1 s I Hl) as [Hne Hv].
+  set (c' := tick (clk (T s t)) t).
+  set (x' := {| clk := c'; pend := join (pend (T s t)) (view (hdm s)); refs := S (refs (T s t));
+                excl := false; mustfree := mustfree (T s t); started := true; lend := S p |}).
+  set (m := {| val := S (val (hdm s)); view := view (hdm s); wt := t; we := get c' t |}).
+  assert (HT : forall M W R l u, T {| msgs := M; Wc := W; Rc := R; live := l; ths := upd (ths s) t x' |} u
+                         = if Nat.eqb u t then x' else T s u) by (intros; apply T_upd; auto).
+  assert (Htot : total (upd (ths s) t x') = total (ths s) + 1).
+  { pose proof (total_upd (ths s) t x' Ht). unfold T, getth in *. subst x'; cbn [refs] in *. lia. }
+  assert (Hcc : cle (clk (T s t)) c') by (subst c'; pw).
+  assert (Hhbm : hb m (clk x')) by (unfold hb; cbn [wt we m clk x']; lia).
+  constructor; cbn [msgs Wc Rc live ths]; unfold hdm; cbn [msgs hd].
+  - intros _. split; [discriminate|]. cbn [val m]. lia.
+  - intros u. rewrite HT. destruct (Nat.eqb_spec u t) as [->|Hne']; cbn [refs clk x'].
+    + intros _. eapply cle_trans; [exact HWt | exact Hcc].
+    + apply (J2 s I u).
+  - intros _ u. cbn [view m]. destruct (J3 s I Hl u) as [H3|[[h [Hh H3]]|[[h [Hm H3]]|[h [Hb H3]]]]]; [left; exact H3| | |].
+    + right. left. exists h. rewrite HT. destruct (Nat.eqb_spec h t) as [->|Hne']; cbn [refs clk x']; [|auto].
+      split; [lia|]. specialize (Hcc u). lia.
+    + exfalso. exact (borrower_no_mustfree s t p h I El Hm).
+    + right. right. right. exists h. rewrite HT. destruct (Nat.eqb_spec h t) as [->|Hne']; cbn [lend clk x']; [|auto].
+      split; [discriminate|]. specialize (Hcc u). lia.
+  - intros u. rewrite HT. destruct (Nat.eqb_spec u t) as [->|Hne']; cbn [mustfree x']; intros Hm; exfalso;
+      exact (borrower_no_mustfree s t p _ I El Hm).
+  - intros u. rewrite HT. destruct (Nat.eqb_spec u t) as [->|Hne']; cbn [excl x']; [discriminate|].
+    intros He. exfalso. exact (borrower_no_excl s t p u I El He).
+  - discriminate.
+  - (* J7 *) intros u q m0. rewrite HT. destruct (Nat.eqb_spec u t) as [->|Hne']; cbn [refs clk x'].
+    + intros Hr' Hq Hn Hall. exfalso. destruct q as [|q]; [lia|].
+      exact (unseen_own s t x' m _ _ _ q Ht Hhbm Hall).
+    + intros Hr' Hq Hn Hall. destruct q as [|q]; [lia|]. cbn [nth_error] in Hn.
+      destruct (Nat.eq_dec u p) as [->|Hup].
+      * (* the lender: its borrower has seen the new message *)
+        exfalso. refine (unseen_lender s t x' m _ _ _ p q Ht _ Hhbm Hall). reflexivity.
+      * destruct q as [|q].
+        -- (* the old head: the lender holds a reference too *)
+           destruct (msgs s) as [|m1 l1] eqn:Hms; [contradiction|]. cbn in Hn. injection Hn as <-.
+           unfold hdm in Hv. rewrite Hms in Hv. cbn [hd] in Hv. rewrite Hv.
+           pose proof (T2_le_total s u p Hup). lia.
+        -- apply (J7 s I u (S q) m0 Hr' ltac:(lia) Hn).
+           refine (unseen_cons s t x' m _ _ _ u (S q) Ht _ Hcc Hne' Hall). cbn [lend x']. congruence.
+  - intros u. rewrite HT. destruct (Nat.eqb_spec u t) as [->|Hne']; cbn [started x']; [discriminate|]. apply (J8 s I u).
+  - intros _ H0. lia.
+  - apply J10_upd; auto. intros (c0 & Hc0). cbn [refs excl x']. split; [lia|reflexivity].
 Qed.
